@@ -6,16 +6,24 @@ batch is handed to the runner, the harness binary is run on `std ...` oracle lin
 the real fcppt templates print (decorated sequence, min/max, parameters that reached the wrapped
 distribution, factory results) from the standard pair's numbers alone.
 """
+import os
 import struct
 
+from vlib import paths as _paths
 from vlib.runner import Batch
 
 ID = "C20"
 LEAN_PROPS = ["FcpptProofs.Props.C20"]
-HARNESS = {"src": "harness/c20.cpp"}
+# second translation unit (compiled in parallel with the first): an absolute path survives os.path.join(REPO, ...) in
+# vlib/harness.py, so it is found whatever VERIF_REPO says
+HARNESS = {"src": "harness/c20.cpp", "repo_srcs": [os.path.join(_paths.ROOT, "harness", "c20_scripts.cpp")]}
 TIE = ("hand-written model (FcpptModel/Model/C20.lean) with the std engine/distribution as parameters + differential "
        "correspondence: the std pair's output is recorded by oracle lines of the same binary and replayed into the model")
-RULE = ("I/EN/C/R/G lines: fcppt's decorated draws, min/max, parameters read from the wrapped distribution and from convert_from, "
+RULE = ("XS/IS/RS lines: programs over up to 4 distribution objects, 3 variates and the generator (construct, copy/move construct and assign, "
+        "swap, self-assignment, draws in any interleaving, reset, param(p), == / !=, min/max/parameters/operator<<, variates built from used "
+        "distributions, copies of variates, direct calls of the generator); XU lines: several uniform_containers on one container that is written to "
+        "between draws; G2: two generators side by side; TI: type_iso called directly; "
+        "I/EN/C/R/G lines: fcppt's decorated draws, min/max, parameters read from the wrapped distribution and from convert_from, "
         "==/!=, 'both ends seen' (>= 400 draws, interval of <= 17 values), optional-ness and indices of the container factories, "
         "compared with the model fed with the std pair's numbers; X/XE/XC lines: the same templates over a counter engine and a "
         "modulo distribution that exist in C++ and in Lean, fully predicted. Exhaustive: all intervals -8<=a<=b<=8 over short/int/long, "
@@ -28,7 +36,7 @@ ASSUMPTIONS = [
     "values of short/int/long are mathematical integers in the type's range (fcppt does no arithmetic on them except size()-1 behind !empty())",
     "floating-point values are compared and modelled as bit patterns",
 ]
-TRUSTED = ["harness/c20.cpp incl. its std-only oracle lines, and the line protocol (vh.hpp, Proto.lean)",
+TRUSTED = ["harness/c20.cpp + c20_scripts.cpp + c20_common.hpp incl. their std-only oracle lines, and the line protocol (vh.hpp, Proto.lean)",
            "g++ 12 + ASan/UBSan/_GLIBCXX_ASSERTIONS as witness for memory safety and for the preconditions of the std distributions"]
 
 LIMITS = {"s": (-(1 << 15), (1 << 15) - 1), "i": (-(1 << 31), (1 << 31) - 1), "l": (-(1 << 63), (1 << 63) - 1)}
@@ -60,6 +68,12 @@ class Spec:
             return None if not self.elems else f"std I z {self.eng} {self.seed} new:0:{len(self.elems) - 1}:{self.n}"
         if k == "G":
             return f"std G {self.eng} {self.mode} {self.seed} {self.n}"
+        if k == "IS":
+            return f"std IS {self.t} {self.eng} {self.seed} " + " ".join(self.acts) if _needs_tape(self.acts) else None
+        if k == "RS":
+            return f"std RS {self.dk} {self.t} {self.eng} {self.seed} " + " ".join(self.acts) if _needs_tape(self.acts) else None
+        if k == "G2":
+            return f"std G2 {self.eng} {self.s0} {self.s1} {self.pat}"
         return None
 
     def final(self, out):
@@ -81,7 +95,29 @@ class Spec:
             return f"C {self.ct} {self.eng} {self.seed} {el} {self.n}:{out if self.elems else '-'}"
         if k == "G":
             return f"G {self.eng} {self.mode} {self.seed} {self.n}:{out}"
+        if k in ("IS", "RS"):
+            tapes = out.split("|")[1:] if out else []
+            acts, it = [], iter(tapes)
+            try:
+                for a in self.acts:
+                    acts.append(a + ":" + next(it) if a.split(":")[0] in TAPED else a)
+            except StopIteration:
+                raise RuntimeError(f"oracle answered {out!r} for {self.oracle()!r}")
+            if next(it, None) is not None:
+                raise RuntimeError(f"oracle answered {out!r} for {self.oracle()!r}")
+            if k == "IS":
+                return f"IS {self.t} {self.deco} {self.eng} {self.seed} " + " ".join(acts)
+            return f"RS {self.dk} {self.t} {self.deco} {self.eng} {self.seed} " + " ".join(acts)
+        if k == "G2":
+            return f"G2 {self.eng} {self.s0} {self.s1} {self.pat} {out}"
         raise AssertionError(k)
+
+
+TAPED = ("d", "d1", "w", "g", "g1")
+
+
+def _needs_tape(acts):
+    return any(a.split(":")[0] in TAPED for a in acts)
 
 
 _BIN = [None]
@@ -180,6 +216,263 @@ def history(r, t, ctor, draw_hi=40, wide=True):
         n = r.choice([0, 1, 2]) if r.chance(1, 6) else r.range(3, draw_hi)
         segs.append((act, cur[0], cur[1], n))
     return segs
+
+
+# ---------------------------------------------------------------- scripts over several objects
+
+DIST_SLOTS, VAR_SLOTS = 4, 3
+
+
+class ScriptState:
+    """Symbolic state while a script is generated: which slots are filled, and (for normal_distribution, whose
+    operator== also looks at a cached value) a token `sid` per object that is 0 when the object carries no state
+    beyond its parameters and is shared exactly by copies that nothing was drawn from since."""
+
+    def __init__(self):
+        self.ds, self.vs, self.k = {}, {}, 0
+
+    def fresh(self):
+        self.k += 1
+        return self.k
+
+
+def random_script(r, nacts, params, stateful_eq=True, max_draws=6):
+    """params(): -> (a, b) textual.  stateful_eq=False: only emit `e` where equality of the parameters decides."""
+    st = ScriptState()
+    acts = []
+
+    def any_d():
+        return r.choice(sorted(st.ds))
+
+    def any_v():
+        return r.choice(sorted(st.vs))
+
+    def ndraws():
+        return r.choice([1, 1, 2, 3]) if r.chance(3, 4) else r.range(0, max_draws)
+
+    while len(acts) < nacts:
+        k = r.below(100)
+        if not st.ds or k < 10:
+            i = r.below(DIST_SLOTS)
+            a, b = params()
+            acts.append(f"{r.choice(['n', 'n2', 'mk'])}:{i}:{a}:{b}")
+            st.ds[i] = [(a, b), 0]
+        elif k < 36:
+            i = any_d()
+            n = ndraws()
+            acts.append(f"{r.choice(['d', 'd', 'd1'])}:{i}:{n}")
+            if n:
+                st.ds[i][1] = st.fresh()
+        elif k < 48:
+            kind = r.choice(["cc", "ca", "mc", "ma", "sw", "ca", "cc"])
+            j = any_d()
+            if kind in ("cc", "mc"):
+                i = r.choice([x for x in range(DIST_SLOTS) if x != j])
+                st.ds[i] = list(st.ds[j])
+            elif kind == "ca":
+                i = any_d()                       # i == j: self-assignment
+                st.ds[i] = list(st.ds[j])
+            elif kind == "ma":
+                cand = [x for x in sorted(st.ds) if x != j]
+                if not cand:
+                    continue
+                i = r.choice(cand)
+                st.ds[i] = list(st.ds[j])
+            else:
+                i = any_d()                       # i == j: self-swap
+                st.ds[i], st.ds[j] = st.ds[j], st.ds[i]
+            acts.append(f"{kind}:{i}:{j}")
+        elif k < 54:
+            i = any_d()
+            acts.append(f"r:{i}")
+            st.ds[i][1] = 0
+        elif k < 61:
+            i = any_d()
+            a, b = params()
+            acts.append(f"p:{i}:{a}:{b}")
+            st.ds[i][0] = (a, b)
+        elif k < 69:
+            i, j = any_d(), any_d()
+            if stateful_eq or st.ds[i][1] == st.ds[j][1]:
+                acts.append(f"e:{i}:{j}")
+        elif k < 74:
+            acts.append(f"q:{any_d()}")
+        elif k < 81:
+            kk = r.below(VAR_SLOTS)
+            if r.chance(1, 4):
+                a, b = params()
+                acts.append(f"{r.choice(['vp', 'vp1'])}:{kk}:{a}:{b}")
+            else:
+                acts.append(f"{r.choice(['v', 'vm', 'v1', 'vm1'])}:{kk}:{any_d()}")
+            st.vs[kk] = True
+        elif k < 85:
+            if not st.vs:
+                continue
+            l = any_v()
+            how = r.choice(["vc", "va", "vc", "va", "vx", "vy"])
+            if how in ("vc", "vx"):
+                kk = r.choice([x for x in range(VAR_SLOTS) if x != l])
+            elif how == "va":
+                kk = any_v()                      # kk == l: self-assignment
+            else:
+                cand = [x for x in sorted(st.vs) if x != l]
+                if not cand:
+                    continue
+                kk = r.choice(cand)
+            acts.append(f"{how}:{kk}:{l}")
+            st.vs[kk] = True
+        elif k < 96:
+            if not st.vs:
+                continue
+            acts.append(f"w:{any_v()}:{ndraws()}")
+        else:
+            acts.append(f"{r.choice(['g', 'g1'])}:{r.range(1, 3)}")
+    return acts
+
+
+def systematic_scripts(iv1, iv2):
+    """Programs that tell value semantics from reference semantics, state-preserving from state-losing copies, and
+    an operation applied to the object from one applied to a copy.  iv1, iv2: two different intervals (a, b)."""
+    (a, b), (c, d) = iv1, iv2
+    out = []
+    # every way to obtain a second distribution object from a first one that has drawn k0 values, then both drawn
+    # from in turn (target first / source first), then compared and looked at
+    for how in ("cc", "ca", "mc", "ma", "sw"):
+        for k0 in (0, 1, 2):
+            for order in ("ts", "st"):
+                pre = [f"n:0:{a}:{b}", f"d:0:{k0}"]
+                if how in ("ca", "ma", "sw"):
+                    pre += [f"n:1:{c}:{d}", "d:1:1"]
+                pre.append(f"{how}:1:0")
+                if how in ("mc", "ma"):        # the moved-from object is only assigned to afterwards
+                    out.append(pre + ["d:1:2", "q:1", f"n:0:{c}:{d}", "d:0:1", "d:1:1", "e:0:1"])
+                    continue
+                seq = ["d:1:2", "d:0:2"] if order == "ts" else ["d:0:2", "d:1:2"]
+                out.append(pre + ["e:0:1"] + seq + ["e:0:1", "d:1:1", "e:0:1", "e:1:0", "q:0", "q:1"])
+    # self-assignment, self-swap, == on the same object, in every state
+    for k0 in (0, 1, 3):
+        out.append([f"n:0:{a}:{b}", f"d:0:{k0}", "ca:0:0", "d:0:2", "sw:0:0", "d:0:2", "e:0:0", "q:0"])
+    # reset() / param(p) at every position of a short run; param keeps the state, reset drops it
+    for k0 in (0, 1, 2, 3):
+        out.append([f"n:0:{a}:{b}", f"n:1:{a}:{b}", f"d:0:{k0}", f"d:1:{k0}", "r:0", "e:0:1", "d:0:2", "d:1:2", "e:0:1", "q:0"])
+        out.append([f"n:0:{a}:{b}", f"n:1:{a}:{b}", f"d:0:{k0}", f"d:1:{k0}", f"p:0:{c}:{d}", "e:0:1", "q:0", "d:0:2", "d:1:2",
+                    f"p:0:{a}:{b}", "e:0:1", "r:0", "r:1", "e:0:1", "d:0:1", "d:1:1"])
+    # a variate is built from a distribution in whatever state it is, holds its own copy, shares the generator
+    for mk in ("v", "vm"):
+        for k0 in (0, 1, 2):
+            out.append([f"n:0:{a}:{b}", f"d:0:{k0}", f"{mk}:0:0", "w:0:2", "d:0:2", "w:0:1", "g:1", "w:0:1", "d:0:1", "e:0:0"])
+    out.append([f"vp:0:{a}:{b}", "w:0:3", f"n:0:{a}:{b}", "d:0:3", "vp:1:{0}:{1}".format(c, d), "w:1:2", "w:0:1"])
+    # copies of variates continue from the state of the original; both keep using the one generator
+    for how in ("vc", "va", "vx", "vy"):
+        for k0 in (0, 1, 2):
+            pre = [f"n:0:{a}:{b}", "v:0:0", f"w:0:{k0}"]
+            if how in ("va", "vy"):
+                pre += [f"vp:1:{c}:{d}", "w:1:1"]
+            if how in ("vx", "vy"):             # the moved-from variate is only assigned to afterwards
+                out.append(pre + [f"{how}:1:0", "w:1:2", f"vp:0:{c}:{d}", "w:0:1", "w:1:1", "g:1", "va:0:1", "w:0:1", "w:1:1"])
+            else:
+                out.append(pre + [f"{how}:1:0", "w:1:2", "w:0:2", "w:1:1", "g:1", "w:0:1"])
+    for k0 in (0, 1, 3):
+        out.append([f"n:0:{a}:{b}", "v:0:0", f"w:0:{k0}", "va:0:0", "w:0:2"])
+    # two generators: a variate keeps referring to the generator it was built on; copying / assigning / moving a variate
+    # takes over the source's generator as well as its distribution; a distribution object can be used with either
+    for how in ("vc", "va", "vx", "vy"):
+        for k0 in (0, 1, 2):
+            pre = [f"n:0:{a}:{b}", "v:0:0", "v1:1:0", f"w:0:{k0}", "w:1:1", "g:1", "g1:1"]
+            if how in ("vc", "vx"):
+                out.append(pre + [f"{how}:2:1", "w:2:2", "g1:1", "g:1", "w:0:1"] + ([] if how == "vx" else ["w:1:2", "g1:1"]))
+            else:
+                out.append(pre + [f"{how}:0:1", "w:0:2", "g1:1", "g:1"] + ([] if how == "vy" else ["w:1:2", "g1:1", "g:1"]))
+    out.append([f"n:0:{a}:{b}", "d:0:2", "d1:0:2", "d:0:1", "g:1", "g1:1", f"vp1:0:{c}:{d}", "vm1:1:0", "w:0:2", "w:1:2", "g1:1", "g:1", "e:0:0"])
+    # three objects drawn from round-robin: one generator, three independent states
+    out.append([f"n:0:{a}:{b}", f"n:1:{a}:{b}", f"n2:2:{c}:{d}", "v:0:1"] + ["d:0:1", "w:0:1", "d:2:1", "g:1", "d:1:1"] * 3 + ["e:0:1", "e:0:2", "q:2"])
+    return out
+
+
+def eq_scripts(values):
+    """== / != on every ordered pair of intervals over `values`, fresh and after draws / reset / param."""
+    return eq_scripts_of([(x, y) for x in values for y in values if x <= y])
+
+
+def eq_scripts_of(ivs, stateless_only=False):
+    """stateless_only: compare only objects that carry nothing but their parameters (fresh or reset)."""
+    out = []
+    for (a, b) in ivs:
+        for (c, d) in ivs:
+            if stateless_only:
+                out.append([f"n:0:{a}:{b}", f"n:1:{c}:{d}", "e:0:1", "e:1:0", "e:0:0", "d:0:1", "d:1:1", "e:0:0", "r:0", "r:1", "e:0:1",
+                            f"p:0:{c}:{d}", "e:0:1", f"p:1:{a}:{b}", "e:1:0", "cc:2:0", "e:2:0", "d:0:1", "ca:2:0", "e:0:2"])
+            else:
+                out.append([f"n:0:{a}:{b}", f"n:1:{c}:{d}", "e:0:1", "e:1:0", "e:0:0", "d:0:1", "e:0:1", "d:1:1", "e:0:1", "r:0", "e:0:1",
+                            "r:1", "e:0:1", f"p:0:{c}:{d}", "e:0:1", f"p:1:{a}:{b}", "e:1:0"])
+    return out
+
+
+def container_scripts_systematic():
+    out = []
+    for size in range(0, 7):
+        elems = [10 * (k + 1) for k in range(size)]
+        el = ",".join(map(str, elems)) or "-"
+        for cm in "cm":
+            if size == 0:
+                out.append((cm, el, ["f:0"]))
+                out.append((cm, el, ["f:0", "f:1", "f:0"]))
+                continue
+            # factory, draws, a copy made after k0 draws continues like the original, both share the container
+            for k0 in (0, 1, 2):
+                # the generator is the program's: what it yields after k0 draws shows how far the wrapper advanced it
+                out.append((cm, el, ["f:0", f"d:0:{k0}", "g:1", "d:0:1", "g:2"]))
+                out.append((cm, el, ["f:0", f"d:0:{k0}", "cc:1:0", "d:1:3", "d:0:3", "ca:0:0", "d:0:2"]))
+                out.append((cm, el, ["f:0", "f:1", f"d:0:{k0}", "d:1:1", "ca:1:0", "d:1:3", "d:0:3"]))
+                out.append((cm, el, ["f:0", f"d:0:{k0}", "mc:1:0", "d:1:3", "f:0", "d:0:1", "ma:0:1", "d:0:2"]))
+            # the wrapper sees later writes to the container (it holds a reference, not a copy)
+            acts = ["f:0", "d:0:2"] + [f"w:{k}:{-(k + 1)}" for k in range(size)] + ["d:0:8"]
+            out.append((cm, el, acts))
+            if cm == "m":
+                out.append((cm, el, ["f:0"] + [f"t:0:{100 + k}" for k in range(2 * size)] + ["d:0:6"]))
+            # the public constructor with every index interval inside the container
+            if size <= 4:
+                for lo in range(size):
+                    for hi in range(lo, size):
+                        out.append((cm, el, [f"k:0:{lo}:{hi}", "d:0:7", "f:1", "d:1:2", "ca:1:0", "d:1:4"]))
+    return out
+
+
+def random_cscript(r, size, mutable, nacts):
+    acts, filled = [], set()
+    while len(acts) < nacts:
+        k = r.below(100)
+        if not filled or k < 14:
+            i = r.below(3)
+            if r.chance(1, 2):
+                acts.append(f"f:{i}")
+            else:
+                lo = r.below(size)
+                acts.append(f"k:{i}:{lo}:{r.range(lo, size - 1)}")
+            filled.add(i)
+        elif k < 55:
+            acts.append(f"d:{r.choice(sorted(filled))}:{r.range(1, 5)}")
+        elif k < 70:
+            j = r.choice(sorted(filled))
+            how = r.choice(["cc", "ca", "cc", "ca", "mc", "ma"])
+            if how in ("cc", "mc"):
+                i = r.choice([x for x in range(3) if x != j])
+            elif how == "ca":
+                i = r.choice(sorted(filled))
+            else:
+                cand = [x for x in sorted(filled) if x != j]
+                if not cand:
+                    continue
+                i = r.choice(cand)
+            acts.append(f"{how}:{i}:{j}")
+            filled.add(i)
+        elif k < 82:
+            acts.append(f"w:{r.below(size)}:{r.range(-999, 999)}")
+        elif k < 88:
+            acts.append(f"g:{r.range(1, 2)}")
+        elif mutable:
+            acts.append(f"t:{r.choice(sorted(filled))}:{r.range(-999, 999)}")
+    return acts
 
 
 # ---------------------------------------------------------------- batches
@@ -303,6 +596,28 @@ def batches(rng, tier):
         specs.append(Spec("R", dk=dk, t=t, deco=r.choice(["p", "s"]), eng=r.choice(ENGINES), seed=seed_for(r), ctor=ctor, segs=segs))
     yield Batch("real-normal", materialise(specs), note="uniform_real / normal over float, double, plain and strong typedef; bit patterns; odd draw counts exercise normal's saved value across reset()")
 
+    # 6b. floating point at the edges of the format: signed zeros, denormals, the largest finite values, infinite mean
+    r = rng.fork("real-special")
+    specs = []
+    k = 0
+    for t in "fd":
+        tiny, big = (1e-45, 3.4028234663852886e38) if t == "f" else (5e-324, 1.7976931348623157e308)
+        one_up = bits2f(f2bits(1.0, t) + 1, t)
+        vals = [-big, -1.0, -tiny, -0.0, 0.0, tiny, 1.0, one_up, big]
+        pairs = [(x, y) for i, x in enumerate(vals) for y in vals[i:] if not (x == -big and y == big)]      # b - a must be finite
+        for a, b in pairs:
+            specs.append(Spec("R", dk="ur", t=t, deco="ps"[k % 2], eng=ENGINES[k % 2], seed=seed_for(r), ctor=CTORS[k % 5],
+                              segs=[("new", f2bits(a, t), f2bits(b, t), 5)]))
+            k += 1
+        for m in vals + [float("inf"), float("-inf")]:
+            for sd in (tiny, 1.0, big):
+                specs.append(Spec("R", dk="no", t=t, deco="ps"[k % 2], eng=ENGINES[k % 2], seed=seed_for(r), ctor=CTORS[k % 5],
+                                  segs=[("new", f2bits(m, t), f2bits(sd, t), 5)]))
+                k += 1
+    yield Batch("real-special-values", materialise(specs), exhaustive=True,
+                note="uniform_real on every ordered pair and normal on every (mean, stddev) from {+-max, +-1, +-denorm_min, +-0, 1+ulp} (mean also +-inf), "
+                     "float and double: the bit patterns of the parameters reach the wrapped distribution unchanged")
+
     # 7. raw generators
     r = rng.fork("gen")
     specs = []
@@ -356,9 +671,159 @@ def batches(rng, tier):
                 "basic_pseudo<ctr_engine> and mod_dist (user-supplied engine and distribution); model predicts every number")
 
 
+    # 9. programs over several distribution objects, variates and the generator; exact pair (stateful mod_dist): all predicted
+    r = rng.fork("scripts")
+    XTYPES = [(t, d) for t in "sil" for d in ("p", "s", "ss")]
+    ivsets = [((-3, 5), (0, 9)), ((0, 0), (0, 1)), ((-8, 8), (7, 8)), ((-32768, -32760), (32751, 32767))]
+    lines = []
+    k = 0
+    for iv1, iv2 in ivsets:
+        for acts in systematic_scripts(iv1, iv2):
+            for t, deco in (XTYPES if thorough else [XTYPES[k % 9]]):
+                lines.append(f"XS {t} {deco} {r.below(1 << 32)} " + " ".join(acts))
+            k += 1
+    for acts in systematic_scripts((0, 4), (1, 3)):
+        lines.append(f"XS i e5 {r.below(1 << 32)} " + " ".join(acts))
+    for acts in eq_scripts([-1, 0, 1]):
+        for t, deco in (XTYPES if thorough else [XTYPES[k % 9]]):
+            lines.append(f"XS {t} {deco} {r.below(1 << 32)} " + " ".join(acts))
+        k += 1
+    yield Batch("scripts-exact-systematic", lines, exhaustive=True,
+                note="every way to copy / assign / move / swap a distribution or variate in state k0 in {0,1,2}, then both drawn from in both orders; "
+                     "self-assignment, self-swap; reset()/param(p) at every position; variate from a used distribution; == / != on all ordered pairs "
+                     "of intervals over {-1,0,1} in fresh / drawn / reset / re-parametrised states")
+
+    lines = []
+    for _ in range(40000 if thorough else 1500):
+        t, deco = r.choice(XTYPES)
+
+        def params(t=t):
+            a, b = interval(r, t, wide=r.chance(1, 3))
+            if b - a >= (1 << 31):
+                b = a + r.below(1 << 31)
+            return a, b
+        seed = r.choice([0, 1, (1 << 32) - 1, (1 << 32) - 5]) if r.chance(1, 8) else r.below(1 << 32)
+        lines.append(f"XS {t} {deco} {seed} " + " ".join(random_script(r, r.range(4, 30), params)))
+    yield Batch("scripts-exact-random", lines, note="random programs of 4-30 steps over 4 distribution slots, 3 variate slots and the generator")
+
+    # 10. the same kind of program over the real standard distributions and engines (tapes from the std-only oracle)
+    r = rng.fork("scripts-std")
+    ITYPES = [("s", "p"), ("s", "s"), ("i", "p"), ("i", "ss"), ("l", "p"), ("l", "s")]
+    specs = []
+    k = 0
+    for acts in systematic_scripts((-3, 5), (0, 9)) + eq_scripts([-1, 0, 1]):
+        for eng in (ENGINES if thorough else [ENGINES[k % 2]]):
+            t, deco = ITYPES[k % 6]
+            specs.append(Spec("IS", t=t, deco=deco, eng=eng, seed=seed_for(r), acts=acts))
+        k += 1
+    for acts in systematic_scripts((0, 2), (1, 1)):
+        specs.append(Spec("IS", t="i", deco=("e3" if k % 2 else "se3"), eng=ENGINES[k % 2], seed=seed_for(r), acts=acts))
+        k += 1
+    fl = lambda x, t: f2bits(x, t)
+    for dk in ("ur", "no"):
+        for t in "fd":
+            if dk == "ur":
+                iv1, iv2 = (fl(-3.0, t), fl(5.5, t)), (fl(0.0, t), fl(1.0, t))
+                eqs = eq_scripts_of([(fl(x, t), fl(y, t)) for x in (-1.0, 0.0, 2.5) for y in (-1.0, 0.0, 2.5) if x <= y], stateless_only=False)
+            else:
+                iv1, iv2 = (fl(-3.0, t), fl(1.5, t)), (fl(10.0, t), fl(0.25, t))
+                eqs = eq_scripts_of([(fl(m, t), fl(sd, t)) for m in (-1.0, 0.0, 2.5) for sd in (0.5, 2.0)], stateless_only=True)
+            scripts = systematic_scripts(iv1, iv2)
+            if dk == "no":      # normal_distribution's == also compares its cached value: keep == on one object only
+                scripts = [[a for a in acts if not (a.startswith("e:") and a.split(":")[1] != a.split(":")[2])] for acts in scripts]
+            for acts in scripts + eqs:
+                for eng in (ENGINES if thorough else [ENGINES[k % 2]]):
+                    specs.append(Spec("RS", dk=dk, t=t, deco="ps"[k % 2], eng=eng, seed=seed_for(r), acts=acts))
+                k += 1
+    for _ in range(15000 if thorough else 600):
+        t, deco = r.choice(ITYPES)
+        specs.append(Spec("IS", t=t, deco=deco, eng=r.choice(ENGINES), seed=seed_for(r),
+                          acts=random_script(r, r.range(4, 24), lambda t=t: interval(r, t))))
+    for _ in range(15000 if thorough else 600):
+        dk, t = r.choice(["ur", "no", "no"]), r.choice("fd")
+        specs.append(Spec("RS", dk=dk, t=t, deco=r.choice("ps"), eng=r.choice(ENGINES), seed=seed_for(r),
+                          acts=random_script(r, r.range(4, 24), lambda dk=dk, t=t: real_params(r, dk, t), stateful_eq=(dk == "ur"))))
+    yield Batch("scripts-std", materialise(specs), exhaustive=True,
+                note="the systematic and random programs over std::uniform_int / uniform_real / normal_distribution and both engines "
+                     "(normal's cached second value travels through every kind of copy)")
+
+    # 11. uniform_container: several wrappers on one container that keeps being modified
+    r = rng.fork("cscripts")
+    lines = []
+    for cm, el, acts in container_scripts_systematic():
+        lines.append(f"XU {cm} {r.below(1 << 32)} {el} " + " ".join(acts))
+    for _ in range(12000 if thorough else 600):
+        size = r.range(1, 6)
+        cm = r.choice("cm")
+        el = ",".join(str(r.range(-50, 50)) for _ in range(size))
+        lines.append(f"XU {cm} {r.below(1 << 32)} {el} " + " ".join(random_cscript(r, size, cm == "m", r.range(3, 16))))
+    yield Batch("container-scripts", lines, exhaustive=True,
+                note="sizes 0..6, const and mutable vector: factory, the public constructor with every index interval (sizes <= 4), copies made "
+                     "after k0 draws, writes to the container between draws and through the returned reference")
+
+    # 12. two generators of one type side by side; type_iso called directly; seed_from_chrono; long runs
+    r = rng.fork("misc")
+    specs = []
+    pats = ["0*1,1*1,0*1,1*1", "0*3,1*2,0*2", "1*4,0*4,1*1", "0*0,1*5,0*5"]
+    for eng in ENGINES:
+        for pat in pats:
+            for s0, s1 in [(1, 1), (r.below(1 << 32), r.below(1 << 32)), (0, U64 if eng == "minstd" else (1 << 32) - 1)]:
+                specs.append(Spec("G2", eng=eng, s0=s0, s1=s1, pat=pat))
+    for pat in pats:
+        specs.append(Spec("RAW", line=f"G2 ctr {r.below(1 << 32)} {r.below(1 << 32)} {pat} -"))
+        specs.append(Spec("RAW", line=f"G2 ctr 7 7 {pat} -"))
+    for n in range(1, 10):
+        for x in range(n):
+            specs.append(Spec("RAW", line=f"TI i e{n} {x}"))
+    for x in range(3):
+        specs.append(Spec("RAW", line=f"TI i se3 {x}"))
+    for t in "sil":
+        lo, hi = LIMITS[t]
+        for deco in DECOS:
+            for x in (lo, lo + 1, -1, 0, 1, hi - 1, hi):
+                specs.append(Spec("RAW", line=f"TI {t} {deco} {x}"))
+    for eng in ENGINES + ["ctr"]:
+        specs.append(Spec("RAW", line=f"SC {eng}"))
+    big = 20000 if thorough else 6000
+    for eng in ENGINES:
+        specs.append(Spec("G", eng=eng, mode="v", seed=seed_for(r), n=big))
+        specs.append(Spec("I", t="i", deco="s", eng=eng, seed=seed_for(r), ctor="v", segs=[("new", -8, 8, big)]))
+        specs.append(Spec("I", t="l", deco="p", eng=eng, seed=seed_for(r), ctor="d", segs=[("new", 0, 1, big), ("rst", 0, 1, 9)]))
+        specs.append(Spec("R", dk="no", t="d", deco="p", eng=eng, seed=seed_for(r), ctor="v",
+                          segs=[("new", f2bits(0.0, "d"), f2bits(1.0, "d"), big // 2 + 1)]))
+        specs.append(Spec("C", ct="vc", eng=eng, seed=seed_for(r), elems=[1, 2, 3, 4, 5], n=big))
+    specs.append(Spec("RAW", line=f"XS i p {r.below(1 << 32)} n:0:-8:8 v:0:0 d:0:{big} w:0:{big} g:{big // 2} d:0:3"))
+    specs.append(Spec("RAW", line=f"XU m {r.below(1 << 32)} 1,2,3,4,5 f:0 d:0:{big} cc:1:0 d:1:3 d:0:3"))
+    specs.append(Spec("RAW", line=f"G ctr v {r.below(1 << 32)} {big}:0:0:-"))
+    yield Batch("generators-typeiso-long", materialise(specs), exhaustive=True,
+                note="two generators of one type interleaved (same / different seeds); type_iso::decorate / undecorate, decorated_value, base_value on every "
+                     "enumerator of enums of size 1..9 and at the limits of short/int/long x plain/strong/nested; seed_from_chrono; runs of "
+                     f"{big} draws through every wrapper")
+
+
+SCRIPT_KINDS = ("XS", "IS", "RS", "XU")
+
+
+def _script_draws(t):
+    n = 0
+    for a in t[1:]:
+        f = a.split(":")
+        if f[0] in ("d", "d1", "w") and len(f) >= 3 and f[2].isdigit():
+            n += int(f[2])
+        elif f[0] in ("g", "g1") and len(f) >= 2 and f[1].isdigit():
+            n += int(f[1])
+        elif f[0] in ("t", "e", "q", "f"):
+            n += 1
+    return n
+
+
 def nontrivial(op, result):
     t = op.split()
-    if t[0] in ("C", "XC"):
+    if t[0] in ("C", "XC", "TI", "SC"):
+        return True
+    if t[0] in SCRIPT_KINDS:
+        return _script_draws(t) > 0
+    if t[0] == "G2":
         return True
     return any(_draws(x) > 0 for x in t[1:] if ":" in x) or (t[0] == "XE" and int(t[-1]) > 0)
 
@@ -375,6 +840,12 @@ def weight(op):
     t = op.split()
     if t[0] in ("XE", "XC"):
         return max(1, int(t[-1]))
+    if t[0] in SCRIPT_KINDS:
+        return max(1, _script_draws(t))
+    if t[0] == "G2":
+        return max(1, sum(int(x.split("*")[1]) for x in t[4].split(",")))
+    if t[0] in ("TI", "SC"):
+        return 1
     return max(1, sum(_draws(x) for x in t[1:] if ":" in x))
 
 
@@ -396,6 +867,19 @@ def refine(op):
     recorded std output is the std output of the shorter run)."""
     t = op.split()
     kind = t[0]
+    if kind in SCRIPT_KINDS:
+        first = next((i for i, x in enumerate(t) if ":" in x), None)
+        if first is None:
+            return None
+        # every prefix of a program is a program (tapes belong to single actions); without tapes single steps can also be left out
+        out = [" ".join(t[:k]) for k in range(first + 1, len(t))]
+        if kind in ("XS", "XU"):
+            out += [" ".join(t[:k] + t[k + 1:]) for k in range(first, len(t) - 1)]
+            for k in range(first, len(t)):          # fewer draws in one step
+                f = t[k].split(":")
+                if f[0] in ("d", "d1", "w") and f[2].isdigit() and int(f[2]) > 1:
+                    out += [" ".join(t[:k] + [":".join(f[:2] + [str(c)])] + t[k + 1:]) for c in _cuts(int(f[2]))[1:]]
+        return out or None
     if kind in ("I", "R", "X"):
         first = next((i for i, x in enumerate(t) if ":" in x), None)
         if first is None:
@@ -424,21 +908,75 @@ def refine(op):
     return None
 
 
+# ---------------------------------------------------------------- members that cannot be instantiated
+
+PROBES = {
+    # name: (source, must it be rejected?, fragment of the path the first error has to come from)
+    "Parameters::convert_to (uniform_int)": ("c20_probe_ill_convert_to.cpp", True, "parameters/uniform_int_impl.hpp"),
+    "Parameters::convert_to (uniform_real, normal)": ("c20_probe_ill_convert_to_real.cpp", True, "parameters/"),
+    "basic::param() const": ("c20_probe_ill_param.cpp", True, "distribution/basic_impl.hpp"),
+    "basic::operator()(Rng &, param_type const &)": ("c20_probe_ill_call_param.cpp", True, "distribution/basic_impl.hpp"),
+    "operator>>(istream &, basic &)": ("c20_probe_ill_extract.cpp", True, ""),
+    "operator<<(ostream &, basic const &) [control]": ("c20_probe_ok_insert.cpp", False, ""),
+}
+
+
+def extra_checks(binp, rng, tier, ev):
+    """Compile the probes (-fsyntax-only, in parallel).  The listed members are ill-formed on the pinned tree and therefore
+    outside the tie; if one of them starts to compile it exists now and nothing checks it: reported, so that harness and
+    model get extended."""
+    import subprocess
+    from concurrent.futures import ThreadPoolExecutor
+    from vlib import harness as hb
+
+    def one(item):
+        name, (src, must_fail, where) = item
+        cmd = [hb.CXX] + hb.BASE_FLAGS + hb.include_flags() + ["-fsyntax-only", os.path.join(_paths.ROOT, "harness", src)]
+        p = subprocess.run(cmd, capture_output=True, text=True)
+        first = next((l for l in p.stderr.splitlines() if " error" in l), "")
+        return name, src, must_fail, where, p.returncode, first
+
+    with ThreadPoolExecutor(max_workers=6) as ex:
+        res = list(ex.map(one, PROBES.items()))
+    out = []
+    table = {}
+    for name, src, must_fail, where, rc, first in res:
+        table[name] = "rejected: " + first.split("error:")[-1].strip()[:160] if rc != 0 else "compiles"
+        if must_fail and rc == 0:
+            out.append({"kind": "broken-correspondence", "property": ID,
+                        "what": f"{name} can be instantiated now (harness/{src} compiles) but is not tied: extend harness, model and notes/C20.md"})
+        elif must_fail and where and where not in first:
+            out.append({"kind": "broken-correspondence", "property": ID,
+                        "what": f"probe harness/{src} is rejected for another reason than the recorded one: {first[:300]}"})
+        elif not must_fail and rc != 0:
+            out.append({"kind": "broken-correspondence", "property": ID,
+                        "what": f"control probe harness/{src} does not compile: {first[:300]}"})
+    if isinstance(ev, dict):
+        ev.setdefault("coverage", {})["uninstantiable_members"] = table
+    return out
+
+
 MANIFEST = {
     "level_text": ("Machine-checked proof (Lean 4) over an executable model of fcppt::random in which the standard engine and the wrapped "
                    "standard distribution are arbitrary parameters: for every engine, distribution, parameter set, result-type shape "
                    "(plain / nested strong typedef / enum) and every history of draw / reset / param(p), the fcppt side produces exactly "
                    "the std side's values re-wrapped by decorate and leaves the wrapped distribution and the generator in the same state "
-                   "(history_transparent, variate_transparent); the interval reaches the wrapped distribution unchanged "
+                   "(history_transparent, variate_transparent), and the same for every program over any number of distribution objects, "
+                   "variates and two generators with copies, assignments, moves, swaps and variates built from used distributions "
+                   "(script_transparent: a copy continues its original's sequence, a variate owns its copy, assignment re-seats the "
+                   "generator); the interval reaches the wrapped distribution unchanged "
                    "(interval_passed_exactly); under the standard's contract a <= x <= b the draws lie in the requested interval, enum "
-                   "draws are enumerators, container indices are valid and elements are members (in_range, enum_in_range, index_valid, "
-                   "container_elem_mem); the index/container factories return nothing exactly for an empty container (empty_gives_none). "
+                   "draws are enumerators, container indices are valid and elements are members (in_range, script_in_range, enum_in_range, index_valid, "
+                   "container_elem_mem, container_script_safe); the index/container factories return nothing exactly for an empty container (empty_gives_none). "
                    "The model is tied to the code by a differential correspondence that replays the real std pair's output into the model "
-                   "and is exhaustive over the intervals, enum sizes and container sizes named by the property."),
+                   "and is exhaustive over the intervals, enum sizes and container sizes named by the property, plus systematic programs "
+                   "(every copy/move/assign/swap form in states k0 in {0,1,2}, == on all ordered interval pairs, two generators) over the "
+                   "real standard distributions and over a stateful user-supplied distribution that exists in C++ and in Lean."),
     "level_note": ("Trusted: Lean kernel + propext/Classical.choice/Quot.sound; fidelity of the hand-written model outside the exercised "
                    "inputs; harness, its std-only oracle lines and the line protocol; the standard's distribution contracts are hypotheses; "
-                   "'reaches both ends' is observed (400 draws), not proved. Parameters::convert_to, basic::param() const and "
-                   "basic::operator()(Rng&, param_type const&) are ill-formed when instantiated on the pinned tree and are outside the tie. "
+                   "'reaches both ends' is observed (400 draws), not proved. Parameters::convert_to, basic::param() const, "
+                   "basic::operator()(Rng&, param_type const&) and operator>> are ill-formed when instantiated on the pinned tree and are outside "
+                   "the tie (compile probes on every run report it if one of them starts to exist). "
                    "No sorry/axiom/native_decide."),
     "technique": "Lean 4 proof over hand-written executable model (std pair as parameter) + differential correspondence with recorded std output (ASan/UBSan harness)",
     "design_ref": "DESIGN.md §5 C20",
